@@ -53,6 +53,13 @@ ASSUMPTIONS = [
     "alphabet and appear only in the model-vs-implementation stream",
     "exception classes are compared only as CallResolverError / AttributeError vs the model's "
     "error branch; otherwise error vs no error",
+    "prediction stage: only call terms whose design-time value equals Python's are followed to new "
+    "data; a text of the KF-C12-D15 class whose two readings coincide on the training frame may "
+    "differ on a new frame: it is classified as that finding exactly as at design time (Lean guard "
+    "PyAlphabet and not PyCompatible, and the implementation's output equals Python's evaluation of "
+    "the model's tree over the frame's columns at that moment); frames have 2-7 rows of dyadic float64 values, default or string "
+    "index; the group-specific path is observed through `(0 + <call> | q)` with every group of the "
+    "new frame seen in training (the entry of each row in the column of its group = the call's value)",
     "String-level injectivity of the name normalisation (equal names => equal token sequences) is "
     "checked here against Python's ast, not proved in Lean",
 ]
@@ -778,17 +785,217 @@ def run_pairs(res, pairs, kind):
 
 
 # ------------------------------------------------------------------------------------------------
+# prediction: the value of a call term on NEW data
+# ------------------------------------------------------------------------------------------------
+class rows:
+    """the recording callee `f` builds columns of the module-level length N: set it for a frame"""
+
+    def __init__(self, n):
+        self.n = n
+
+    def __enter__(self):
+        global N
+        self.old, N = N, self.n
+
+    def __exit__(self, *a):
+        global N
+        N = self.old
+
+
+GROUPS = ["p", "q", "p", "q"]        # the grouping column of the training frame (prediction stage)
+
+
+def _dyadic(rng, n, lo=-4, hi=9):
+    return [rng.randrange(lo, hi) / 2 for _ in range(n)]
+
+
+def py_eval_on(text, frame):
+    """Python's own evaluation of the text over the columns the frame holds NOW"""
+    try:
+        with warnings.catch_warnings():
+            warnings.simplefilter("ignore")
+            code = compile(text, "<c12>", "eval")
+    except Exception as e:  # noqa (SyntaxError: not a Python expression)
+        return {"error": "syntax", "cls": type(e).__name__}
+    ns = dict(namespace())
+    from formulae.transforms import TRANSFORMS
+    ns.update({"x": frame["x"], "z": frame["z"], "I": TRANSFORMS["I"]})
+    del LOG[:]
+    try:
+        with warnings.catch_warnings(), np.errstate(all="ignore"), rows(len(frame)):
+            warnings.simplefilter("ignore")
+            v = eval(code, {"__builtins__": {}}, ns)
+    except Exception as e:  # noqa
+        return {"error": "eval", "cls": type(e).__name__}
+    return {"value": canon(v), "log": list(LOG)}
+
+
+def impl_eval_on(dm, part, frame):
+    """the call term's column through `<part>.evaluate_new_data(frame)` and what the callees saw"""
+    del LOG[:]
+    try:
+        with warnings.catch_warnings(), np.errstate(all="ignore"), rows(len(frame)):
+            warnings.simplefilter("ignore")
+            new = getattr(dm, part).evaluate_new_data(frame)
+        m = np.asarray(new.design_matrix, dtype=float)
+        if part == "common":
+            if m.ndim != 2 or m.shape != (len(frame), 1):
+                return {"error": "shape", "cls": str(m.shape)}
+            col = m[:, 0]
+        else:
+            # (0 + call | q): one column per group; row i holds the call's value in the column of its
+            # group (the other entries are value * 0: zero, or nan when the value is not finite, so
+            # the entry is picked, not summed)
+            groups = [str(g_) for g_ in list(dm.group.terms.values())[0].groups]
+            if m.ndim != 2 or m.shape != (len(frame), len(groups)):
+                return {"error": "shape", "cls": str(m.shape)}
+            col = np.array([m[i_, groups.index(str(q_))] for i_, q_ in enumerate(frame["q"].tolist())])
+        return {"value": canon(col), "log": list(LOG)}
+    except Exception as e:  # noqa
+        return {"error": "eval", "cls": type(e).__name__}
+
+
+EDITS = ["column x", "column z", "cell x", "cell z", "both columns", "values x"]
+
+
+def edit_in_place(rng, frame, how):
+    """edit the frame object in place (same object, same length)"""
+    n = len(frame)
+    if how == "column x":
+        frame["x"] = _dyadic(rng, n)
+    elif how == "column z":
+        frame["z"] = _dyadic(rng, n, 1, 9)
+    elif how == "cell x":
+        frame.loc[frame.index[rng.randrange(n)], "x"] = rng.randrange(10, 30) / 2
+    elif how == "cell z":
+        frame.iloc[rng.randrange(n), list(frame.columns).index("z")] = rng.randrange(10, 30) / 4
+    elif how == "both columns":
+        frame[["x", "z"]] = np.column_stack([_dyadic(rng, n), _dyadic(rng, n, 1, 9)])
+    else:
+        frame["x"] = frame["x"].to_numpy() * 2 + 1
+
+
+def predict_case(res, text, seed, path):
+    """One call term: build the design, then evaluate it on a new frame, on the same frame object
+    after in-place edits, on the same object once more, on a fresh copy and on another frame; each
+    value must be Python's eval of the same text over the frame's columns at that moment, and the
+    callees must have been called with what Python passes them."""
+    from formulae import design_matrices
+    rng = rng_for(seed, "c12", "predict", path)
+    pytext = _unbrace(text)
+    part = "group" if rng.random() < 0.25 else "common"
+    train = _data()
+    train["q"] = GROUPS
+    formula = ("y ~ 0 + " + text) if part == "common" else f"y ~ 0 + (0 + {text} | q)"
+    # design time: the property has to hold there (what stages 1-6 judge); only then is the
+    # prediction path looked at
+    try:
+        del LOG[:]
+        with warnings.catch_warnings(), np.errstate(all="ignore"):
+            warnings.simplefilter("ignore")
+            dm = design_matrices(formula, train, extra_namespace=namespace())
+    except Exception:  # noqa
+        res.count("predict:skipped (no design)")
+        return
+    at_design = impl_eval_on(dm, part, train)
+    if "value" not in at_design or not obs_equal(py_eval_on(pytext, train), at_design):
+        res.count("predict:skipped (differs from Python on the training frame: stages 1-6)")
+        return
+    n = rng.choice([2, 3, 4, 4, 5, 7])
+    new = pd.DataFrame({"x": _dyadic(rng, n), "z": _dyadic(rng, n, 1, 9),
+                        "q": [rng.choice("pq") for _ in range(n)]})
+    if rng.random() < 0.3:
+        new.index = [f"r{i}" for i in range(n)]
+    steps = [("new frame", None)]
+    for how in rng.sample(EDITS, rng.randrange(1, 4)):
+        steps.append(("same object after in-place edit: " + how, how))
+    steps.append(("same object again, no edit", None))
+    steps.append(("fresh copy of the frame", "copy"))
+    steps.append(("another frame", "other"))
+    frame = new
+    records = []
+    for i, (label, how) in enumerate(steps):
+        if how == "copy":
+            frame = frame.copy(deep=True)
+        elif how == "other":
+            m = rng.choice([2, 3, 4, 6])
+            frame = pd.DataFrame({"x": _dyadic(rng, m), "z": _dyadic(rng, m, 1, 9),
+                                  "q": [rng.choice("pq") for _ in range(m)]})
+        elif how is not None:
+            edit_in_place(rng, frame, how)
+        io = impl_eval_on(dm, part, frame)
+        py = py_eval_on(pytext, frame)
+        res.evaluations += 1
+        res.count("predict:" + label.split(":")[0])
+        # the Lean model over the columns the frame holds now: exact value, guard predicates and
+        # the model's tree as fully parenthesised Python text
+        cols = {c: {"v": [[int(Fraction(t).numerator), int(Fraction(t).denominator)]
+                          for t in frame[c].tolist()]} for c in ("x", "z")}
+        rq = {"op": "c12", "s": text, "n": len(frame), "vars": dict(cols, c={"n": [C, 1]})}
+        if mods_for(text):
+            rq["mods"] = mods_for(text)
+        records.append({
+            "case": {"s": text, "kind": "predict", "path": path, "part": part, "step": i,
+                     "steps": [l for l, _ in steps[:i + 1]],
+                     "frame_now": {c: frame[c].tolist() for c in ("x", "z")}},
+            "label": label, "io": io, "py": py, "rq": rq, "frame": frame.copy(deep=True)})
+    return records
+
+
+def run_predict(res, texts, seed, start=0):
+    todo = []
+    for j, t in enumerate(texts):
+        todo += predict_case(res, t, seed, start + j) or []
+    # one batch for the Lean model; then the verdicts
+    for rec, lo in zip(todo, ask([r["rq"] for r in todo]) if todo else []):
+        case, io, py = rec["case"], rec["io"], rec["py"]
+        part, label = case["part"], rec["label"]
+        guards = lo.get("guards", {})
+        lv = lo.get("value") or {}
+        mism = None
+        if "ok" in lv and "value" in io and io["value"][0] == "vec":
+            res.traces += 1
+            if not lean_val_eq(lv["ok"], io["value"]):
+                mism = "value on new data differs from the model's exact value"
+                res.mismatches.append({"case": case, "impl": io, "model": lv, "why": mism})
+        if obs_equal(py, io):
+            if "value" in io:
+                res.nontrivial.add(("predict", case["s"], part, label))
+            continue
+        # the value differs from Python's: the KF-C12-D15 class (the formula grammar read as Python
+        # arithmetic) only if the Lean guard puts the text there AND the implementation did what
+        # the model's tree says over the columns of this frame
+        finding = None
+        in_class = guards.get("py_alphabet") and not guards.get("py_compatible")
+        if in_class and mism is None and "paren" in lo:
+            pred = py_eval_on(lo["paren"], rec["frame"])
+            if obs_equal(pred, io):
+                finding = "KF-C12-D15"
+                res.known_hit[finding] = res.known_hit.get(finding, 0) + 1
+        res.failures.append({
+            "case": case, "impl": io, "expected": py, "finding": finding,
+            "why": f"{part}.evaluate_new_data ({label}): value / received arguments differ from "
+                   "Python's evaluation of the same text over the frame's current columns"})
+
+# ------------------------------------------------------------------------------------------------
 def explore(tier, seed, res=None, replay=None):
     res = res or Result()
     res.rule = ("call terms f(<expr>) over columns x, z (dyadic float64), scalar c, literals, "
                 "recording callees f, g and dotted callees a.b.c.fn (1-4 dots) through module-like "
                 "objects whose levels re-use the same attribute names for different recording "
                 "functions (complete tree `tk`, random sparse tree `lib`); non-trivial = the "
-                "implementation builds a term; distinct by the parsed tree (Lean sexp)")
+                "implementation builds a term; distinct by the parsed tree (Lean sexp); prediction "
+                "stage: a sample of these call terms (as a common term, and as the effect of a "
+                "group-specific term) evaluated through evaluate_new_data on a new frame, on the same "
+                "frame object after in-place edits (column / cell assignments), on the same object "
+                "again, on a fresh copy and on another frame, each compared with Python's eval over "
+                "the frame's columns at that moment and with what the recording callees received")
     # the module-like objects depend on the seed only (a replay rebuilds the same objects)
     build_mods(rng_for(seed, "c12", "mods"))
     if replay is not None:
-        if "a" in replay:
+        if replay.get("kind") == "predict":
+            run_predict(res, [replay["s"]], seed, replay.get("path", 0))
+        elif "a" in replay:
             run_pairs(res, [(replay["a"], replay["b"])], replay.get("kind", "replay"))
         elif replay.get("whole"):
             run_whole(res, [replay["s"]], "replay")
@@ -928,6 +1135,18 @@ def explore(tier, seed, res=None, replay=None):
               ("g(x, k='a')", "g(x, k='b')"), ("f(x, 2)", "f(x, k=2)"), ("f(x)", "g(x)"),
               ("f(x, k=2)", "f(x,k = 2)")]
     run_pairs(res, pairs, "pairs")
+
+    # 7. prediction: call terms through common / group evaluate_new_data on new frames, on the same
+    #    frame object after in-place edits, on fresh copies
+    rp = rng_for(seed, "c12", "predict-texts")
+    n_pred = 140 if quick else 4000
+    cand = [f"f({j}, {t})" for j, t in enumerate(rtexts) if ("x" in t or "z" in t)]
+    ptexts = rp.sample(cand, min(len(cand), n_pred))
+    ptexts += rp.sample(col, min(len(col), 25 if quick else 300))
+    ptexts += rp.sample(whole, min(len(whole), 25 if quick else 300))
+    ptexts += ["f( x + z,k = 1 )", "g(x)", "g(x, k=z)", "f(x, 'a', k=z * 2)", "{x / z}", "I(x + 1)",
+               "f(x ** 2, z)", "f(g(x), g(z, k=2))"]
+    run_predict(res, ptexts, seed)
     return res
 
 
